@@ -29,6 +29,7 @@ type Env struct {
 }
 
 var logStamp = regexp.MustCompile(`\d{4}/\d{2}/\d{2} \d{2}:\d{2}:\d{2} `)
+var tmpName = regexp.MustCompile(`/tmp/([A-Za-z_-]+)\.\d+\.`)
 
 // N returns the number of runs for the tier (VERIF_RUNS overrides it; used by
 // the determinism self-test).
@@ -51,11 +52,16 @@ func (e *Env) Log(run int64, parts ...any) {
 	js, _ := json.Marshal(parts)
 	line := strings.ReplaceAll(string(js), e.Tree.Root, "@ROOT@")
 	line = strings.ReplaceAll(line, strings.TrimPrefix(e.Tree.Root, "/"), "@ROOT@") // os.Root reports paths relative to "/"
-	line = logStamp.ReplaceAllString(line, "@TIME@ ")                                // bkl -v logs carry wall-clock timestamps
+	line = tmpName.ReplaceAllString(line, "/tmp/$1.@N@.")                           // the wrappers name their temp files at random
+	line = logStamp.ReplaceAllString(line, "@TIME@ ")                               // bkl -v logs carry wall-clock timestamps
 	e.logMu.Lock()
 	defer e.logMu.Unlock()
 	if e.log == nil {
 		e.log = map[int64][]string{}
+	}
+	if os.Getenv("VERIF_EVENTLOG_RAW") != "" {
+		e.log[run] = append(e.log[run], line) // debugging aid: the entries themselves
+		return
 	}
 	e.log[run] = append(e.log[run], harness.Hash(line))
 }
